@@ -541,6 +541,45 @@ pub fn run_for(desc: &Value, ctx: &Ctx, oracle: Oracle) -> CaseOut {
                 }
             }
             out.obs.inc(if got.get("open").map(|v| v.starts_with("ok")).unwrap_or(false) { "opened" } else { "open_failed" });
+            // damaged cluster read by several threads at once: every reader must come back (value or error);
+            // a reader left waiting is caught by the case watchdog and the hang confirmation
+            if structure.starts_with("cluster") {
+                let path = dir.join("c.jbk");
+                let addrs: Vec<(u16, u32)> = s.plan.addrs.iter().cloned().take(8).collect();
+                let r = util::catch(|| {
+                    if let Ok(c) = jubako::reader::Container::new(&path) {
+                        let c = std::sync::Arc::new(c);
+                        let barrier = std::sync::Arc::new(std::sync::Barrier::new(4));
+                        std::thread::scope(|sc| {
+                            for _ in 0..4 {
+                                let c = c.clone();
+                                let barrier = barrier.clone();
+                                let addrs = addrs.clone();
+                                sc.spawn(move || {
+                                    barrier.wait();
+                                    for (p, i) in addrs {
+                                        let a = jubako::ContentAddress::new(jubako::PackId::from(p), jubako::ContentIdx::from(i));
+                                        if let Ok(Some(jubako::reader::MayMissPack::FOUND(Some(region)))) = c.get_bytes(a) {
+                                            let mut v = vec![];
+                                            let _ = std::io::Read::read_to_end(&mut region.stream(), &mut v);
+                                        }
+                                    }
+                                });
+                            }
+                        });
+                    }
+                });
+                out.obs.inc("concurrent_reads_of_damaged_clusters");
+                if let Err(p) = r {
+                    if !p.in_harness() {
+                        out.violate(
+                            json!({"kind": "panic", "site": p.site(), "message": p.norm_msg(), "api": "concurrent-read", "op": d.op(), "profile": profile()}),
+                            format!("C06: concurrent readers of a damaged cluster panicked at {}: {}", p.site(), p.msg),
+                            json!({}),
+                        );
+                    }
+                }
+            }
         }
         Oracle::C05 => {
             // structural items must be identical to the pristine ones or an error
